@@ -56,6 +56,9 @@ TypeParams(c) == {i \in 1..Len(c.targs) : c.targs[i] = "type"}
 UsedFieldNames(c) == {c.fields[i].n : i \in 1..Len(c.fields)}
 UsedNames == {FullName(schema[i]) : i \in Idx}
 
+(* a namespace lives entirely in the TL1 file or entirely in the TL2 file *)
+NsFits(ns, tl2) == \A j \in Idx : (ns # "" /\ schema[j].ns = ns) => schema[j].tl2 = tl2
+
 Init == schema = <<>> /\ mut = "none"
 
 Comb(kind, ns, cn, tn, targs, res, tl2) ==
@@ -67,7 +70,7 @@ AddStruct ==
   /\ mut = "none"
   /\ Len(schema) < MaxCombs
   /\ \E ns \in Namespaces, nm \in NameMenu, tl2 \in (IF AllowTL2 THEN BOOLEAN ELSE {FALSE}) :
-       /\ <<ns, nm.cn>> \notin UsedNames
+       /\ <<ns, nm.cn>> \notin UsedNames /\ NsFits(ns, tl2)
        /\ schema' = Append(schema, Comb("struct", ns, nm.cn, nm.tn, <<>>, NoRes, tl2))
   /\ UNCHANGED mut
 
@@ -76,7 +79,7 @@ AddTemplate ==
   /\ Len(schema) < MaxCombs
   /\ "tinst" \in Kinds
   /\ \E ns \in Namespaces, nm \in NameMenu, ta \in {<<"type">>, <<"nat">>, <<"type", "nat">>} :
-       /\ <<ns, nm.cn>> \notin UsedNames
+       /\ <<ns, nm.cn>> \notin UsedNames /\ NsFits(ns, FALSE)
        /\ schema' = Append(schema, Comb("struct", ns, nm.cn, nm.tn, ta, NoRes, FALSE))
   /\ UNCHANGED mut
 
@@ -88,7 +91,7 @@ AddVariant ==
        LET have == {i \in Idx : schema[i].kind = "variant" /\ schema[i].ns = ns /\ schema[i].tn = u.tn}
            k == Cardinality(have) + 1
        IN /\ k <= Len(u.vs)
-          /\ <<ns, u.vs[k]>> \notin UsedNames
+          /\ <<ns, u.vs[k]>> \notin UsedNames /\ NsFits(ns, FALSE)
           /\ schema' = Append(schema, Comb("variant", ns, u.vs[k], u.tn, <<>>, NoRes, FALSE))
   /\ UNCHANGED mut
 
@@ -96,12 +99,21 @@ ResultChoices ==
   {[k |-> "int", a |-> 0], [k |-> "bool", a |-> 0], [k |-> "vecint", a |-> 0]}
     \cup {[k |-> "ref", a |-> j] : j \in {i \in Idx : IsCtor(schema[i]) /\ Len(schema[i].targs) = 0 /\ ~schema[i].tl2}}
 
+(* results of a function declared in the TL2 file: builtin, array, nothing, or a TL2 struct *)
+TL2ResultChoices ==
+  {[k |-> "int", a |-> 0], [k |-> "bool", a |-> 0], [k |-> "vecint", a |-> 0], [k |-> "none", a |-> 0]}
+    \cup {[k |-> "ref", a |-> j] : j \in {i \in Idx : schema[i].kind = "struct" /\ schema[i].tl2}}
+
+(* a TL2 function must carry a magic: it is born with a fresh one *)
 AddFunction ==
   /\ mut = "none"
   /\ Len(schema) < MaxCombs
-  /\ \E ns \in Namespaces, fnm \in FuncNames, r \in ResultChoices, tl2 \in (IF AllowTL2 THEN BOOLEAN ELSE {FALSE}) :
-       /\ <<ns, fnm>> \notin UsedNames
-       /\ schema' = Append(schema, Comb("func", ns, fnm, "", <<>>, r, tl2))
+  /\ \E ns \in Namespaces, fnm \in FuncNames, tl2 \in (IF AllowTL2 THEN BOOLEAN ELSE {FALSE}) :
+       \E r \in (IF tl2 THEN TL2ResultChoices ELSE ResultChoices) :
+         /\ <<ns, fnm>> \notin UsedNames /\ NsFits(ns, tl2)
+         /\ schema' = Append(schema,
+               [Comb("func", ns, fnm, "", <<>>, r, tl2) EXCEPT
+                  !.tag = IF tl2 THEN [k |-> "fresh", a |-> Len(schema) + 1, b |-> 0] ELSE NoTag])
   /\ UNCHANGED mut
 
 (* field shapes that are well-formed at the end of combinator c of the     *)
@@ -241,6 +253,9 @@ FieldOK(c, pos) ==
 CombOK(i) ==
   LET c == schema[i] IN
   /\ c.kind \in {"struct", "variant", "func"}
+  /\ (c.tl2 /\ c.kind = "func") => c.tag.k # "none"
+  \* a namespace is defined entirely in the TL1 file or entirely in the TL2 file
+  /\ \A j \in Idx : (c.ns # "" /\ schema[j].ns = c.ns) => schema[j].tl2 = c.tl2
   /\ \A j \in Idx : j # i => FullName(schema[j]) # FullName(c)
   /\ \A pos \in 1..Len(c.fields) : FieldOK(c, pos)
 
